@@ -377,13 +377,35 @@ def setmax_ops(rng, tier):
     return ops
 
 
+def touch_ops(rng, tier):
+    """the accessors reader_mut() / reader() called, and read() called with the future dropped before its first poll, between the polls of a
+    frame in flight (after the future that was reading it has been dropped): neither touches what has been received so far"""
+    ops = []
+    for _ in range(600 if tier == "quick" else 12000):
+        vs = [F.rand_val(rng, 30) for _ in range(rng.randint(1, 4))]
+        ps = [F.payload(x) for x in vs]
+        st = F.frames(ps)
+        evs = []
+        left = len(st)
+        while left > 0:
+            k = rng.choice([1, 1, 2, 3, 5, 8])
+            evs.append(min(k, left)); left -= min(k, left)
+            if rng.random() < 0.6:
+                evs.append("p")
+        evs += tail(len(ps))
+        npolls = sum(1 for e in evs if e == "p") + len(ps) + 2
+        acts = "".join("p" + rng.choice(["", "", "r", "c", "d", "rc", "cr", "dr", "cc"]) for _ in range(npolls))
+        ops.append(f"areadm 100 {gen.hexb(st)} {F.script_tok(evs)} {acts} 100 #k=touch #p={'/'.join(gen.hexb(p) for p in ps)}")
+    return ops
+
+
 def judge_setmax(op, impl, model, spec):
     if impl in ("panic", "bad-op") or impl.startswith("crash"):
         return "violation"
     w = op.split(" ")
     acts = w[4]
     toks = impl.split(" ")[0].split(",")
-    if len(toks) != len(acts) or any((a in "dm") != (t == "-") for a, t in zip(acts, toks)):
+    if len(toks) != len(acts) or any((a in "dmrc") != (t == "-") for a, t in zip(acts, toks)):
         return "violation"
     data = [t for t in toks if t not in ("P", "-")]
     ps = [b"" if x == "-" else bytes.fromhex(x) for x in F.ann(op, "p").split("/")]
@@ -413,6 +435,9 @@ def streams(rng, tier):
         Stream("set-max-len-in-flight", "hio", setmax_ops(rng, tier), judge=judge_setmax, nontrivial=lambda op, impl: "some:" in impl,
                rule="areadm: the payload partly read, the future dropped, set_max_len(k) with k below / at / above the length of the frame in flight, read again: "
                     "every frame whole and in order, then a clean end (theorem set_max_len_frame_in_flight: in state ReadVal the limit is not consulted)"),
+        Stream("accessors-and-unpolled-futures", "hio", touch_ops(rng, tier), judge=judge_setmax, nontrivial=lambda op, impl: "some:" in impl,
+               rule="areadm: reader_mut() / reader() called, read() called and dropped unpolled, between the polls of frames in flight under chunking and Pendings: "
+                    "every frame whole and in order, then a clean end"),
         mk("default-limit", default_limit_ops(rng, tier), "payloads of 524285..524289 bytes through a reader whose limit was never set: 524288 is the last one accepted"),
         mk("big-frames", big_ops(rng, tier), "frames of 65537..100005 bytes delivered in 20..66 KB pieces with Pendings / transient errors mid-payload and drops; oracle: every value once, in order, then none, rem=0"),
         mk("long-streams", long_ops(rng, tier), "31..300 frames in one scenario under chunking, Pendings, transient errors and a drop after every / a third of / no poll; oracle: every value once, in order, then none, rem=0"),
